@@ -281,7 +281,53 @@ func (x *Exec) havocBoundCells(st *State, fn *ssa.Function, binds []Val) {
 
 // autoInline: deferred closures and trivial local closures without loops.
 func (x *Exec) autoInline(fn *ssa.Function) bool {
-	return deferOnly(fn)
+	return deferOnly(fn) || confinedClosure(fn)
+}
+
+var confinedCache = map[*ssa.Function]bool{}
+
+// confinedClosure: a loop-free anonymous function that is only ever called
+// directly by its enclosing function (possibly through a local variable).
+// It is inlined at its call sites; its obligations are generated there.
+func confinedClosure(fn *ssa.Function) bool {
+	if v, ok := confinedCache[fn]; ok {
+		return v
+	}
+	res := func() bool {
+		par := fn.Parent()
+		if par == nil || len(fn.Blocks) == 0 || len(findLoops(fn)) > 0 {
+			return false
+		}
+		found := false
+		for _, b := range par.Blocks {
+			for _, in := range b.Instrs {
+				mc, ok := in.(*ssa.MakeClosure)
+				if !ok || mc.Fn != ssa.Value(fn) {
+					continue
+				}
+				found = true
+				if !closureConfined(mc) {
+					return false
+				}
+			}
+		}
+		if !found {
+			return false
+		}
+		// no (mutual) recursion through other closures: callees must not call back
+		for _, b := range fn.Blocks {
+			for _, in := range b.Instrs {
+				if c, ok := in.(*ssa.Call); ok {
+					if callee := resolveCallee(c.Call.Value); callee == fn {
+						return false
+					}
+				}
+			}
+		}
+		return true
+	}()
+	confinedCache[fn] = res
+	return res
 }
 
 // deferOnly: an anonymous function whose only use is a defer statement.
@@ -781,7 +827,9 @@ func init() {
 		"strings.LastIndex", "strings.LastIndexByte", "strings.ContainsRune", "strings.IndexRune", "strings.Map",
 		"(*bytes.Buffer).WriteByte", "(*bytes.Buffer).Len", "(*bytes.Buffer).String", "(*bytes.Buffer).Write", "(*bytes.Buffer).WriteString",
 		"(*bytes.Buffer).Bytes", "(*bytes.Buffer).Reset", "(*strings.Builder).WriteByte", "(*strings.Builder).WriteString",
-		"(*strings.Builder).String", "(*strings.Builder).Len", "(*strings.Builder).WriteRune", "(*strings.Builder).Write"} {
+		"(*strings.Builder).String", "(*strings.Builder).Len", "(*strings.Builder).WriteRune", "(*strings.Builder).Write",
+		"bufio.NewScanner", "(*bufio.Scanner).Scan", "(*bufio.Scanner).Text", "(*bufio.Scanner).Err", "(*bufio.Scanner).Bytes",
+		"(*bufio.Scanner).Buffer", "strconv.FormatInt", "strconv.FormatFloat", "strconv.Quote", "unicode.IsSpace", "unicode.IsDigit"} {
 		intrinsics[k] = pureFresh
 	}
 }
